@@ -752,20 +752,31 @@ class Interp:
 
     def _check_unwind(self, ctx):
         """deferred unwinding assertions of this path: one one-shot query; on failure raise the bounds"""
-        s = z3.SolverFor("QF_BV")
-        s.set("timeout", self.decide_timeout_ms)
-        s.add(*ctx.assumptions)
-        s.add(*ctx.pc)
-        s.add(z3.Or([g for g, _ in ctx.unwind]))
         t0 = time.time()
-        r = s.check()
-        ctx.nq += 1
+        m = None
+        # one query per group of leftover guards (each is a local fact about one loop)
+        groups = [ctx.unwind[k:k + 6] for k in range(0, len(ctx.unwind), 6)]
+        while groups:
+            grp = groups.pop(0)
+            s = z3.SolverFor("QF_BV")
+            s.set("timeout", self.decide_timeout_ms)
+            s.add(*ctx.assumptions)
+            s.add(*ctx.pc)
+            s.add(z3.Or([g for g, _ in grp]))
+            r = s.check()
+            ctx.nq += 1
+            if r == z3.sat:
+                m = s.model()
+                break
+            if r != z3.unsat:
+                if len(grp) > 1:
+                    groups = [[x] for x in grp] + groups
+                    continue
+                ctx.t += time.time() - t0
+                raise Inconclusive("deferred unwinding assertion undecided within the decision timeout")
         ctx.t += time.time() - t0
-        if r == z3.unsat:
+        if m is None:
             return True
-        if r != z3.sat:
-            raise Inconclusive("deferred unwinding assertion undecided within the decision timeout")
-        m = s.model()
         bumped = set()
         for g, node in ctx.unwind:
             if id(node) not in bumped and z3.is_true(m.eval(g, model_completion=True)):
@@ -1916,7 +1927,8 @@ def prove(I, thunk, assumptions, variables, native, tally, timeout_s=60, expect=
         # variables are W-bit signed views of Python ints
         return {n: m.eval(variables[n], model_completion=True).as_signed_long() for n in names}
 
-    for p in paths:
+    blocks = []               # blocking clauses of recorded known findings hold on every path
+    for p in sorted(paths, key=lambda q: len(q.pc)):
         base = list(p.assumptions) + list(p.pc)
 
         def fresh(*extra):
@@ -1928,9 +1940,30 @@ def prove(I, thunk, assumptions, variables, native, tally, timeout_s=60, expect=
             return s_
 
         # side conditions: BV arithmetic == Python int arithmetic on this path
+        # (each is a local fact; one query over all of them at once makes z3 search a huge disjunction, so they
+        # are discharged in chunks)
+        chunk = max(1, len(p.side))
+        r_all = None
         if p.side:
-            s = fresh(z3.Not(z3.And(p.side)))
+            s = fresh(z3.Not(z3.And(p.side)) if len(p.side) > 1 else z3.Not(p.side[0]))
+            r_all = _timed(tally, s)
+            if r_all == z3.sat:
+                m = s.model()
+                res.update(status="error", note=f"no-overflow/coverage side condition violated (width {I.W}) at {vals_of(m)}")
+                return res
+            chunk = 24                      # undecided as one query: discharge in chunks
+        for k0 in range(0, len(p.side) if r_all == z3.unknown else 0, chunk):
+            part = p.side[k0:k0 + chunk]
+            s = fresh(z3.Not(z3.And(part)) if len(part) > 1 else z3.Not(part[0]))
             r = _timed(tally, s)
+            if r == z3.unknown and len(part) > 1:       # retry one by one
+                r = z3.unsat
+                for c1 in part:
+                    s = fresh(z3.Not(c1))
+                    r1 = _timed(tally, s)
+                    if r1 != z3.unsat:
+                        r = r1
+                        break
             if r == z3.sat:
                 m = s.model()
                 res.update(status="error", note=f"no-overflow/coverage side condition violated (width {I.W}) at {vals_of(m)}")
@@ -1971,7 +2004,6 @@ def prove(I, thunk, assumptions, variables, native, tally, timeout_s=60, expect=
             bad = z3.Or(raised_e, z3.Not(rb))
         if expect == "raises":
             bad = z3.Not(raised_e)
-        blocks = []
         rounds = 0
         while True:
             s = fresh(bad, *blocks)
@@ -2012,10 +2044,19 @@ def prove(I, thunk, assumptions, variables, native, tally, timeout_s=60, expect=
                 res.update(status="error", note=f"solver model does not reproduce on the real code: {vals} ({info})")
                 res["witnesses"].append(dict(witness=w, info=info, reproduced=False))
                 return res
+            blk = on_witness(w) if on_witness is not None else None
+            if isinstance(blk, tuple):          # ("skip", clause): a consequence of an already recorded finding
+                blocks.append(blk[1])
+                rounds += 1
+                if rounds >= 4 * max_witnesses:
+                    res["note"] += " [witness enumeration cut off]"
+                    if res["status"] == "holds":
+                        res["status"] = "inconclusive"
+                    break
+                continue
             res["status"] = "violated"
             res["witnesses"].append(dict(witness=w, info=info, reproduced=True))
             rounds += 1
-            blk = on_witness(w) if on_witness is not None else None
             if blk is None or rounds >= max_witnesses:
                 if blk is not None:
                     res["note"] += " [witness enumeration cut off]"
@@ -2047,13 +2088,40 @@ def obligations(pid, clause, config, I, thunk, variables, assumptions, native, t
                          replay=dict(reproduced=bool(w["reproduced"]), inputs=w["witness"], observed=str(w["info"]), law=text),
                          stretch=stretch)
 
+    def default_block(wit):
+        return z3.Or([variables[n] != wit[n] for n in wit if n in variables])
+
+    mk_block = block_of or default_block
+    # listed findings of this clause/configuration that carry a witness and still reproduce on the real code:
+    # their blocking clause also explains witnesses that are mere consequences (e.g. multiples of a found order)
+    verified = []
+    for k in known:
+        if k.get("property") != pid or k.get("clause") != clause or not k.get("witness"):
+            continue
+        if ("configs" in k and config not in k["configs"]) or ("configs" not in k and k.get("config") != config):
+            continue
+        kw = k["witness"]
+        if set(kw) != set(variables):
+            continue
+        ok_nat, _ = native(**kw)
+        bad_nat = (ok_nat is not True) if expect != "raises" else (ok_nat != "raised")
+        if bad_nat:
+            verified.append((kw, mk_block(kw)))
+
     def on_witness(wit):
         probe = dict(clause=clause, config=config, witness=wit)
-        if common.known_match(known, pid, probe) is None:
-            return None
+        if common.known_match(known, pid, probe) is not None:
+            return mk_block(wit)
         if block_of is not None:
-            return block_of(wit)
-        return z3.Or([variables[n] != wit[n] for n in wit if n in variables])
+            sub = [(v, z3.BitVecVal(wit[n], v.size())) for n, v in variables.items() if z3.is_const(v) and not z3.is_bv_value(v)]
+            for kw, blk in verified:
+                # is this witness excluded by the blocking clause of a reproduced listed finding?
+                s_ = z3.Solver()
+                s_.add(blk)
+                s_.add(*[variables[n] == wit[n] for n in wit if n in variables])
+                if s_.check() == z3.unsat:
+                    return ("skip", blk)
+        return None
 
     t0 = time.time()
     try:
